@@ -242,26 +242,28 @@ class NumericalGradient(Operator):
         """Return ``self(x)``."""
         # The algorithm takes finite differences in one dimension at a time
         # reusing the dx vector to improve efficiency.
-        dfdx = self.domain.zero()
-        dx = self.domain.zero()
+        # Work on arrays so that spaces with more than one axis are handled
+        # by (multi-)indexing, too.
+        dfdx = np.zeros(self.domain.shape, dtype=self.domain.dtype)
+        dx = np.zeros(self.domain.shape, dtype=self.domain.dtype)
 
         if self.method == 'backward':
             fx = self.functional(x)
-            for i in range(self.domain.size):
-                dx[i - 1] = 0  # reset step from last iteration
+            for i in np.ndindex(*self.domain.shape):
                 dx[i] = self.step
                 dfdx[i] = fx - self.functional(x - dx)
+                dx[i] = 0  # reset step for the next iteration
         elif self.method == 'forward':
             fx = self.functional(x)
-            for i in range(self.domain.size):
-                dx[i - 1] = 0  # reset step from last iteration
+            for i in np.ndindex(*self.domain.shape):
                 dx[i] = self.step
                 dfdx[i] = self.functional(x + dx) - fx
+                dx[i] = 0  # reset step for the next iteration
         elif self.method == 'central':
-            for i in range(self.domain.size):
-                dx[i - 1] = 0  # reset step from last iteration
+            for i in np.ndindex(*self.domain.shape):
                 dx[i] = self.step / 2
                 dfdx[i] = self.functional(x + dx) - self.functional(x - dx)
+                dx[i] = 0  # reset step for the next iteration
         else:
             raise RuntimeError('unknown method')
 
